@@ -310,24 +310,29 @@ Proof.
   { intros v1 A B C. unfold vss_receive_vector. rewrite Nat.eqb_refl, A. cbn [negb].
     cbn [v_xrecv set_vArecv set_y set_vA]. rewrite B. unfold verify_share. cbn. rewrite pubkeys_nth. cbn.
     split; [auto|]. right. cbn. auto. }
-  destruct m as [|sb|vb|cb|ab|tg]; cbn [lift pack vs_run vs_v];
-    try (split; [auto|]; apply Hbad; cbn; auto; fail).
-  destruct sb as [|z]; [split; [auto|]; apply Hbad; cbn; auto|].
-  cbn in Hm. rewrite Hx0.
+  assert (Hbad' : forall v1, v_vArecv v1 = false -> v_xrecv v1 = true -> v_x v1 = 0 ->
+     let '(s2, r2, _) := pack (lift true v1 (vss_receive_vector cf d d (VOk l) v1)) in
+     ~ is_keys ROk /\ ~ is_keys r2 /\ never_keys (vs_v s2)).
+  { intros v1 A B C. pose proof (Hbad v1 A B C) as HB.
+    destruct (pack (lift true v1 (vss_receive_vector cf d d (VOk l) v1))) as [[s2 r2] e2].
+    destruct HB. auto. }
+  destruct m as [|sb|vb|cb|ab|tg]; cbn [lift pack vs_run vs_v negb];
+    try (apply Hbad'; cbn; auto; fail).
+  destruct sb as [|z]; [cbn [lift pack vs_run vs_v negb]; apply Hbad'; cbn; auto|].
+  cbn in Hm. cbn [v_x set_xrecv]. rewrite Hx0.
   destruct (Z_le_gt_dec z 0) as [Ez|Ez]; [|destruct (Z_le_gt_dec r z) as [Er|Er]].
   - pose proof (read_star_bad z 0 (or_introl Ez)) as Eb. pose proof (read_star_bad_val z (or_introl Ez)) as Ev.
     destruct (read_star z 0) as [ok x']. cbn in Eb, Ev. subst ok x'. cbn [negb lift pack vs_run vs_v].
-    split; [auto|]. apply Hbad; cbn; auto.
+    apply Hbad'; cbn; auto.
   - pose proof (read_star_bad z 0 (or_intror Er)) as Eb. pose proof (read_star_bad_val z (or_intror Er)) as Ev.
     destruct (read_star z 0) as [ok x']. cbn in Eb, Ev. subst ok x'. cbn [negb lift pack vs_run vs_v].
-    split; [auto|]. apply Hbad; cbn; auto.
-  - rewrite read_star_ok by lia. cbn [negb]. cbn [v_vArecv set_x set_xrecv]. rewrite Hr. cbn [andb lift pack vs_run vs_v].
-    split; [auto|].
+    apply Hbad'; cbn; auto.
+  - rewrite read_star_ok by lia. cbn [negb]. cbn [v_vArecv set_x set_xrecv]. rewrite Hr. cbn [andb lift pack vs_run vs_v negb].
     unfold vss_receive_vector. rewrite Nat.eqb_refl. cbn [negb v_vArecv set_x set_xrecv]. rewrite Hr.
     cbn [v_xrecv set_vArecv set_y set_vA set_x set_xrecv]. unfold verify_share. cbn. rewrite pubkeys_nth. cbn.
     destruct Hm as [Hm|[Hm|Hm]]; try lia.
     destruct (z =? peval (fixpoly (c_t cf) l) (Z.of_nat (c_my cf) + 1)) eqn:E; [apply Z.eqb_eq in E; contradiction|].
-    split; [auto|apply never_keys_after_both; cbn; auto].
+    split; [auto|split; [auto|apply never_keys_after_both; cbn; auto]].
 Qed.
 
 (* in a reachable state of a non-dealer, an unread share slot is zero and validKey is false
